@@ -7,4 +7,5 @@ INVARIANT Answered
 INVARIANT DeniedGuard
 INVARIANT TimeLaw
 INVARIANT FarNeverValid
+INVARIANT Emit
 CHECK_DEADLOCK FALSE
